@@ -9,6 +9,8 @@ structure S where
   transfers : List (String × String × Int)      -- origin transfer records: id ↦ (user, amount)
   lockIds : List String
   answered : List String := []                  -- swaps answered here (units taken out of the given-out counter)
+  foreignRec : List (String × String × Int) := []  -- answered swaps of a foreign token: sym ↦ (owner, amount)
+  allowed : List (String × Int) := []           -- allowed balances of the foreign token (credits, in order)
   feeSet : Bool := false                        -- a setFee has succeeded (own currency)
   share : Int := 0                              -- fee share in 1e-8
   feeAddr : Option String := none
@@ -25,7 +27,8 @@ def ok (s : S) (t : Tok) : S × String := ({ s with t := t }, "ok")
 def dump (s : S) : String :=
   let f := fun (k : String → PK) => ",".intercalate (users.map (fun u => s!"{u}={s.t.bal (k u)}"))
   let esc := (s.t.ids.map s.t.escrow).sum
-  s!"tok:{f tokK};lck:{f lckK};given={s.t.bal givenK};escrow={esc};emission={s.t.emission}"
+  let alw := ",".intercalate (users.map (fun u => s!"{u}={((s.allowed.filter (·.1 = u)).map (·.2)).sum}"))
+  s!"tok:{f tokK};lck:{f lckK};given={s.t.bal givenK};escrow={esc};grp=0;alw:{alw};emission={s.t.emission}"
 
 def step (s : S) : List String → S × String
   | ["reset"] => (init, "ok")
@@ -68,7 +71,17 @@ def step (s : S) : List String → S × String
       if n ≤ 0 ∨ s.t.bal givenK < n ∨ (s.swapOwner.any (·.1 = sym)) then (s, "err")
       else ({ s with t := tstep s.t (.escrowIn sym givenK n), swapOwner := (sym, u) :: s.swapOwner, answered := sym :: s.answered }, "ok")
     | none => (s, "bad-op")
+  | ["swapanswerf", sym, u, n] => match n.toInt? with
+    | some n =>
+      if n ≤ 0 ∨ (s.swapOwner.any (·.1 = sym)) ∨ (s.foreignRec.any (·.1 = sym)) then (s, "err")
+      else ({ s with foreignRec := (sym, u, n) :: s.foreignRec }, "ok")
+    | none => (s, "bad-op")
   | ["swapuserdone", sym] =>
+    -- a foreign token's answered record: the owner gets an allowed balance, no unit of this channel moves
+    match s.foreignRec.find? (·.1 = sym) with
+    | some (_, owner, n) =>
+      ({ s with foreignRec := s.foreignRec.filter (·.1 ≠ sym), allowed := (owner, n) :: s.allowed }, "ok")
+    | none =>
     -- the key completes an answered record only: the owner receives the units
     match s.swapOwner.find? (·.1 = sym) with
     | some (_, owner) =>
@@ -78,6 +91,7 @@ def step (s : S) : List String → S × String
       else (s, "err")
     | none => (s, "err")
   | ["swapcancel", sym] =>
+    if s.foreignRec.any (·.1 = sym) then ({ s with foreignRec := s.foreignRec.filter (·.1 ≠ sym) }, "ok") else
     match s.swapOwner.find? (·.1 = sym) with
     | some (_, owner) =>
       -- an answered record goes back to where its units came from: the given-out counter
@@ -128,6 +142,8 @@ def parseDump (o : String) : Option (List Int × Int) :=
   let parts := o.splitOn ";"
   let nums := parts.flatMap (fun p =>
     let body := match p.splitOn ":" with | [_, b] => b | _ => p
+    -- (allowed balances of a foreign token are not units of this channel)
+    if p.startsWith "alw" then [] else
     (body.splitOn ",").filterMap (fun kv => match kv.splitOn "=" with | [_, v] => v.toInt? | _ => none))
   match nums.reverse with
   | em :: rest => some (rest, em)
